@@ -453,6 +453,29 @@ def d_unwrap(cx, bi, t):
             if pos == bool(truth):
                 return ("dom-some", "dominated by `%s` == %s" % (cnd["callee"].split("::")[-1], truth))
     if not (od and od[0] == "def" and od[1]["kind"] == "call"):
+        # result of a desugared combinator (map / and_then / ok_or_else ..): Some/Ok exactly when the receiver was
+        if od and od[0] == "multi":
+            l0 = od[1]
+            ds0 = [d for d in b.defs().get(l0, []) if d["kind"] == "assign"]
+            if ds0 and all(d["stmt"].get("syn") for d in ds0) and len(ds0) == len(b.defs().get(l0, [])):
+                kinds = {}
+                for d in ds0:
+                    rv = d["stmt"]["rv"]
+                    if rv["k"] == "aggregate" and rv.get("adt") in ("std::option::Option", "std::result::Result"):
+                        kinds[rv["variant"]] = d
+                good_v = "Some" if "Option" in c else "Ok"
+                bad_v = "None" if "Option" in c else "Err"
+                if set(kinds) == {good_v, bad_v}:
+                    # the bad variant is produced only on the receiver's bad edge
+                    for pl, vals, other, a in discr_guard_variants(b, kinds[bad_v]["block"]):
+                        rd = b.single_def(pl["local"])
+                        if rd and rd["kind"] == "assign" and rd["stmt"].get("syn") and rd["stmt"]["rv"]["k"] == "use":
+                            recv_op = rd["stmt"]["rv"]["op"]
+                            t2 = dict(t)
+                            t2["args"] = [recv_op] + t["args"][1:]
+                            sub = d_unwrap(cx, bi, t2)
+                            if sub:
+                                return (sub[0], "through a desugared combinator: " + sub[1])
         # Option local assigned in branches: accumulator-implies-set
         if od and od[0] == "multi":
             l = od[1]
@@ -504,9 +527,9 @@ def d_unwrap(cx, bi, t):
             return ("regex-group", "text is a capture group whose language is ASCII digits with value in [%d, %d]: parse::<%s>() cannot fail" % (iv[0], iv[1], ity))
         gs, sl = cx.group_of(ot["args"][0])
         if gs == {"frac"}:
-            tr = sl.find_calls(r"String::truncate$")
+            tr = sl.find_calls(r"String::truncate$|Iterator::take$")
             g = cx.iso().get("frac")
-            if tr and const_value(op_const(tr[0][1]["args"][1]) or {}) == 9 and g and g["ascii_only"] and ity in ("u32", "u64", "i64"):
+            if tr and const_value(op_const(b.resolve_copy(tr[0][1]["args"][1])) or {}) == 9 and g and g["ascii_only"] and ity in ("u32", "u64", "i64"):
                 return ("regex-group", "fraction is ASCII digits padded/truncated to 9 characters: <= 999999999 fits %s" % ity)
         if gs == {"year"}:
             g = cx.iso().get("year")
